@@ -129,6 +129,31 @@ def _impl(args):
                             exps += [x.id for x in plain.senses(ff, pp)]
                     out['wn'].append({'mode': mode, 'q': q, 'pos': p, 'got': got, 'union': sorted(set(exp)),
                                       'got_senses': gots, 'union_senses': sorted(set(exps))})
+        # two selected lexicons that use the same ids (two versions of one lexicon): the union keeps both
+        import copy
+        lx2 = copy.deepcopy(lx)
+        lx2['version'] = '2'
+        f2 = d / 'm2.xml'
+        f2.write_text(docs.to_xml(docs.resource([lx2], '1.1')), encoding='utf-8')
+        wn.add(f2, progress_handler=None)
+        spec2 = f"{lx['id']}:2"
+        singles = [wn.Wordnet(spec, normalizer=None), wn.Wordnet(spec2, normalizer=None)]
+        key = lambda x: x.lexicon().specifier() + '/' + x.id
+        for mode, m in (('init', mi), ('uninit', mu)):
+            lw = wn.Wordnet(spec + ' ' + spec2, normalizer=None, lemmatizer=m)
+            for q in qs[:8]:
+                for p in (None, 'n', 'v'):
+                    prop = m(q, p) or {p: {q}}
+                    got = [key(x) for x in lw.words(q, p)]
+                    gots = [key(x) for x in lw.senses(q, p)]
+                    exp, exps = [], []
+                    for pp, forms in prop.items():
+                        for ff in forms:
+                            for one in singles:
+                                exp += [key(x) for x in one.words(ff, pp)]
+                                exps += [key(x) for x in one.senses(ff, pp)]
+                    out['wn'].append({'mode': mode + '+two-versions', 'q': q, 'pos': p, 'got': got, 'union': sorted(set(exp)),
+                                      'got_senses': gots, 'union_senses': sorted(set(exps))})
         # default normalizer: the documented two-pass procedure over all proposed pairs
         import lookup
         for mode, m in (('init', mi), ('uninit', mu)):
